@@ -7,15 +7,20 @@ psChacha20Poly1305Ietf* of the freshly built library on the same generated case 
 spec+model (ocaml/drv_c12.ml); every harness case runs in a forked child so a crash is a result.
 Search oracle (Impl vs Spec, independent of the Gallina text): Python hashlib / hmac / pbkdf2_hmac, a
 pure-Python HKDF, GCM (GF(2^128) on Python ints) and ChaCha20-Poly1305, with AES blocks from the
-`openssl` CLI when it is installed.
+`openssl` CLI when it is installed; 3DES-EDE-CBC by the pure-Python FIPS 46-3 reference tools/c12/des_ref.py
+(openssl `-des-ede3-cbc` as a second opinion on a sample).  The evidence lists which primitives this
+configuration builds and how each is covered (coverage.primitive_inventory).
 """
 import hashlib, hmac as pyhmac, itertools, json, os, shutil, subprocess, threading, time
 import vlib
+import sys
+sys.path.insert(0, os.path.join(vlib.VERIF, "tools", "c12"))
+import des_ref                     # pure-Python FIPS 46-3 / SP 800-67 reference (self-tested against published vectors and openssl)
 
 HASH = {"sha256": hashlib.sha256, "sha1": hashlib.sha1, "sha384": hashlib.sha384, "sha512": hashlib.sha512, "md5": hashlib.md5}
 BLOCK = {"sha256": 64, "sha1": 64, "md5": 64, "sha384": 128, "sha512": 128}
 HLEN = {"sha256": 32, "sha1": 20, "md5": 16, "sha384": 48, "sha512": 64}
-PS_ARG_FAIL, PS_LIMIT_FAIL = 6, 9
+PS_ARG_FAIL, PS_LIMIT_FAIL, PS_UNSUPPORTED_FAIL = 6, 9, 10
 hx = vlib.hexs
 un = vlib.unhex
 
@@ -138,6 +143,26 @@ def oracle(line):
         if ks is None: return None
         s_ = gf_mul((8 * n) & ((1 << 64) - 1), int.from_bytes(ks[:16], "big"))
         return hx(xor(s_.to_bytes(16, "big"), ks[16:]))
+    if op == "des3": return hx(des_ref.des3_cbc(un(t[2]), un(t[3]), un(t[4]), decrypt=(t[1] == "d")))
+    if op == "m5s1": return hashlib.md5(un(t[1])).hexdigest() + hashlib.sha1(un(t[1])).hexdigest()
+    if op == "aesb":
+        if len(un(t[2])) not in (16, 24, 32): return "rc=badkey"
+        r = aes_ecb(un(t[2]), un(t[3]), decrypt=(t[1] == "d"))
+        return None if r is None else hx(r)
+    if op == "pb1":
+        pw, salt = un(t[1]), un(t[2])
+        d1 = hashlib.md5(pw + salt).digest(); d2 = hashlib.md5(d1 + pw + salt).digest()
+        return hx((d1 + d2)[:24])
+    if op == "sa2": return hashlib.sha256(un(t[1])).hexdigest()
+    if op == "s5s": return hashlib.sha512(un(t[1])).hexdigest()
+    if op == "hsg": return HASH[t[1]](un(t[2])).hexdigest() if t[1] in ("sha256", "sha384", "sha512") else "rc=%d" % PS_UNSUPPORTED_FAIL
+    if op == "hm0": return pyhmac.new(un(t[2]), un(t[3]), HASH[t[1]]).hexdigest()
+    if op == "chpd":
+        key, nonce, aad, data = un(t[2]), un(t[3]), un(t[4]), un(t[5])
+        if t[1] == "e":
+            out, tag = o_chp(key, nonce, aad, data, False); return hx(out) + " " + hx(tag)
+        out, tag = o_chp(key, nonce, aad, data, True)
+        return "ok " + hx(out) if tag == un(t[6]) else "authfail"
     if op == "chp":
         key, nonce, aad, data = un(t[2]), un(t[3]), un(t[4]), un(t[5])
         if t[1] == "e":
@@ -167,7 +192,15 @@ def cost(line):
     if op == "cbc": return 2 * (L(t[4]) // 16 + 1)
     if op == "gcm": return 6 * ((L(t[5]) + 15) // 16 + (L(t[4]) + 15) // 16 + 4)      # AES block + GHASH multiplication
     if op == "gcmr": return 6 * ((L(t[3]) + L(t[7]) + 30) // 16 + (L(t[6]) + 15) // 16 + 8)
-    if op == "chp": return 4 * ((L(t[5]) + 63) // 64 + 2) + (L(t[5]) + L(t[4])) // 8
+    if op in ("chp", "chpd"): return 4 * ((L(t[5]) + 63) // 64 + 2) + (L(t[5]) + L(t[4])) // 8
+    if op == "des3": return L(t[4]) // 8 + 2
+    if op == "m5s1": return 2 * (nblocks("md5", L(t[1])) + nblocks("sha1", L(t[1])))
+    if op == "aesb": return 2
+    if op == "pb1": return 4 * nblocks("md5", L(t[1]) + 24)
+    if op == "sa2": return nblocks("sha256", L(t[1]))
+    if op == "s5s": return nblocks("sha512", L(t[1]))
+    if op == "hsg": return 2 * nblocks(t[1], L(t[2])) if t[1] in BLOCK else 1
+    if op == "hm0": return 2 * hmac_cost(t[1], L(t[2]), L(t[3]))
     return 1
 
 
@@ -387,6 +420,123 @@ def gen_gcm_reuse(ck, r):
 # library only (the extracted model cannot walk 2^28 bytes): total lengths around 2^31 bits, fed as zero ciphertext
 BIG = [("gcmz %s %s 268435456 1048576", "2^28 bytes in 1 MiB calls"), ("gcmz %s %s 268435472 268435472", "2^28+16 bytes in one call")]
 
+def o_des3_openssl(key, iv, data, decrypt):
+    """second opinion for 3DES-CBC when the openssl CLI is installed"""
+    if not OPENSSL: return None
+    p = subprocess.run([OPENSSL, "enc", "-des-ede3-cbc", "-K", key.hex(), "-iv", iv.hex(), "-nopad"] + (["-d"] if decrypt else []),
+                       input=data, capture_output=True, timeout=60)
+    return p.stdout if p.returncode == 0 and len(p.stdout) == len(data) else None
+
+WEAK_DES = [bytes.fromhex(x) for x in ("0101010101010101", "FEFEFEFEFEFEFEFE", "E0E0E0E0F1F1F1F1", "1F1F1F1F0E0E0E0E",
+                                       "01FE01FE01FE01FE", "FE01FE01FE01FE01", "1FE01FE00EF10EF1", "E01FE01FF10EF10E")]
+def set_parity(k, odd):
+    """force the 8 parity bits (lsb of each byte) to odd parity / flip them all (the DES result must not depend on them)"""
+    return bytes((b & 0xFE) | ((bin(b >> 1).count("1") + (1 if odd else 0)) & 1) for b in k)
+
+def gen_des3(ck, r):
+    thorough = ck.tier == "thorough"
+    out = []
+    def keys():
+        k1, k2, k3 = pat(r, 8), pat(r, 8), pat(r, 8)
+        yield "K1=K2=K3", k1 + k1 + k1
+        yield "K1=K3!=K2", k1 + k2 + k1
+        yield "K1=K2!=K3", k1 + k1 + k3
+        yield "K2=K3!=K1", k1 + k3 + k3
+        for _ in range(10 if thorough else 5): yield "three-key", pat(r, 24)
+        yield "three-key:SP800-67-B1", bytes.fromhex("0123456789ABCDEF23456789ABCDEF01456789ABCDEF0123")
+        w = WEAK_DES
+        yield "weak-keys", w[0] + w[1] + w[2]
+        yield "weak-keys", w[3] + pat(r, 8) + w[0]
+        yield "semi-weak-keys", w[4] + w[5] + w[6]
+        yield "semi-weak-keys", pat(r, 8) + w[7] + w[4]
+        k = pat(r, 24)
+        yield "parity-odd", set_parity(k, True)
+        yield "parity-even", set_parity(k, False)
+        yield "parity-all-clear", bytes(b & 0xFE for b in k)
+        yield "parity-all-set", bytes(b | 1 for b in k)
+    for kind, key in keys():
+        iv = pat(r, 8)
+        for nb in ((1, 2, 3, 5, 9) if thorough else (1, 3)):
+            data = pat(r, 8 * nb)
+            for d in ("e", "d"):
+                for ip in (0, 1):
+                    out.append("des3 %s %s %s %s - %d %d" % (d, hx(key), hx(iv), hx(data), r.randrange(16), ip)); ck.count("des3:%s:%s" % (d, kind))
+            # decrypt what the reference encrypted (a genuine ciphertext), cut into two calls, in place
+            ct = des_ref.des3_cbc(key, iv, data)
+            out.append("des3 d %s %s %s %s %d 1" % (hx(key), hx(iv), hx(ct), spl([8]), r.randrange(16))); ck.count("des3:d:%s" % kind)
+    # every way of cutting 4 (thorough: 5) blocks into calls: IV carried from call to call, both directions, in place and not
+    key, iv = pat(r, 24), pat(r, 8)
+    nb = 5 if thorough else 4
+    data = pat(r, 8 * nb)
+    for parts in compositions(nb):
+        s_ = spl([8 * p_ for p_ in parts])
+        for d in ("e", "d"):
+            for ip in (0, 1):
+                out.append("des3 %s %s %s %s %s %d %d" % (d, hx(key), hx(iv), hx(data), s_, (len(parts) * 3 + ip) & 15, ip)); ck.count("des3:all-block-partitions")
+    # alignments 0..15
+    data = pat(r, 24)
+    for al in range(16):
+        for d in ("e", "d"):
+            out.append("des3 %s %s %s %s %s %d %d" % (d, hx(key), hx(iv), hx(data), spl([8]), al, al & 1)); ck.count("des3:alignment")
+    # lengths up to 4096 bytes
+    for n in ((64, 512, 1024, 4096) if thorough else (64, 4096)):
+        data = pat(r, n); k = pat(r, 24)
+        out.append("des3 e %s %s %s %s %d 1" % (hx(k), hx(iv), hx(data), spl([8, n // 2]), r.randrange(16))); ck.count("des3:long")
+        out.append("des3 d %s %s %s %s %d 0" % (hx(k), hx(iv), hx(data), spl([n // 2, 8]), r.randrange(16))); ck.count("des3:long")
+    return out
+
+def gen_legacy(ck, r):
+    """the other primitives built in this configuration that have a standard definition"""
+    thorough = ck.tier == "thorough"
+    out = []
+    # MD5||SHA1 (TLS < 1.2 handshake hash)
+    for n in (boundary_lengths(64, False) if thorough else (0, 1, 55, 56, 63, 64, 65, 119, 120, 128, 200)):
+        out.append("m5s1 %s - %d" % (hx(pat(r, n)), r.randrange(16))); ck.count("md5sha1:len-sweep")
+    m = pat(r, 130)
+    for i in (range(0, 131) if thorough else (0, 1, 55, 56, 63, 64, 65, 127, 128, 129, 130)):
+        out.append("m5s1 %s %s 0" % (hx(m), spl([i]))); ck.count("md5sha1:2-way-split")
+    for parts in compositions(6):
+        out.append("m5s1 %s %s 0" % (hx(m[:66]), spl([60] + parts))); ck.count("md5sha1:partitions-across-boundary")
+    # AES single block, both directions, all key sizes, alignments, in place
+    for kl in (16, 24, 32):
+        for _ in range(6 if thorough else 3):
+            key, blk = pat(r, kl), pat(r, 16)
+            for d in ("e", "d"):
+                out.append("aesb %s %s %s %d %d" % (d, hx(key), hx(blk), r.randrange(16), r.randrange(2))); ck.count("aes-block:%s:%d" % (d, 8 * kl))
+        key, blk = pat(r, kl), pat(r, 16)
+        for al in range(16):
+            out.append("aesb %s %s %s %d %d" % ("e" if al & 1 else "d", hx(key), hx(blk), al, (al >> 1) & 1)); ck.count("aes-block:alignment")
+    out.append("aesb e %s %s 0 0" % (hx(pat(r, 20)), hx(pat(r, 16)))); ck.count("aes-block:bad-key-length")
+    # FIPS 197 / SP 800-38A single blocks
+    out.append("aesb e 000102030405060708090a0b0c0d0e0f 00112233445566778899aabbccddeeff 0 0"); ck.count("aes-block:fips197")
+    out.append("aesb d 000102030405060708090a0b0c0d0e0f101112131415161718191a1b1c1d1e1f 8ea2b7ca516745bfeafc49904b496089 0 1"); ck.count("aes-block:fips197")
+    # PBKDF1-style MD5 key derivation (PEM DEK-Info: DES-EDE3-CBC)
+    for pl in (0, 1, 8, 39, 40, 47, 48, 55, 56, 63, 64, 65, 100) + ((120, 200) if thorough else ()):
+        out.append("pb1 %s %s" % (hx(pat(r, pl)), hx(pat(r, 8)))); ck.count("pbkdf1")
+    # one-call wrappers
+    for n in (0, 1, 55, 56, 63, 64, 65, 119, 120, 200) + ((1000,) if thorough else ()):
+        out.append("sa2 %s %d" % (hx(pat(r, n)), r.randrange(16))); ck.count("sha256-standalone")
+    for n in (0, 1, 111, 112, 119, 120, 127, 128, 129, 300):
+        out.append("s5s %s %d" % (hx(pat(r, n)), r.randrange(16))); ck.count("sha512-single")
+    for alg in ("sha256", "sha384", "sha512", "md5"):
+        for n in (0, 3, BLOCK[alg] - 9 if alg != "md5" else 55, BLOCK[alg] + 1):
+            out.append("hsg %s %s %s" % (alg, hx(pat(r, n)), spl([1]) if n > 1 else "-")); ck.count("psHash:" + alg)
+    for alg in ("sha256", "sha1", "sha384", "md5"):
+        for kl in (0, 20, BLOCK[alg], BLOCK[alg] + 1, 2 * BLOCK[alg] + 1):
+            out.append("hm0 %s %s %s" % (alg, hx(pat(r, kl)), hx(pat(r, 50)))); ck.count("psHmacSingle")
+    # ChaCha20-Poly1305 detached API
+    key = pat(r, 32)
+    for (al_, pl) in ((0, 0), (5, 1), (16, 64), (13, 130)):
+        nonce, aad, pt = pat(r, 12), pat(r, al_), pat(r, pl)
+        for ip in (0, 1):
+            out.append("chpd e %s %s %s %s %d %d" % (hx(key), hx(nonce), hx(aad), hx(pt), r.randrange(16), ip)); ck.count("chacha-detached:enc")
+        ct, tag = o_chp(key, nonce, aad, pt, False)
+        out.append("chpd d %s %s %s %s %s %d 1" % (hx(key), hx(nonce), hx(aad), hx(ct), hx(tag), r.randrange(16))); ck.count("chacha-detached:dec-genuine")
+        for b in (0, 64, 127):
+            out.append("chpd d %s %s %s %s %s 0 0" % (hx(key), hx(nonce), hx(aad), hx(ct), hx(flip(tag, b)))); ck.count("chacha-detached:bitflip-tag")
+        if pl: out.append("chpd d %s %s %s %s %s 0 0" % (hx(key), hx(nonce), hx(aad), hx(flip(ct, 3)), hx(tag))); ck.count("chacha-detached:bitflip-ct")
+    return out
+
 def gen_chp(ck, r):
     thorough = ck.tier == "thorough"
     out = []
@@ -414,7 +564,8 @@ def gen_chp(ck, r):
 
 
 # ---------------------------------------------------------------- plumbing
-AL_IP_FIELDS = {"dg": (4,), "hms": (5,), "hm1": (4,), "cbc": (6, 7), "gcm": (8, 9), "chp": (6, 7)}
+AL_IP_FIELDS = {"dg": (4,), "hms": (5,), "hm1": (4,), "cbc": (6, 7), "gcm": (8, 9), "chp": (6, 7), "des3": (6,), "m5s1": (3,),
+                "aesb": (4, 5), "sa2": (2,), "s5s": (2,)}
 def model_key(line):
     """alignment and in-place flags are invisible to the model: evaluate it once per distinct rest"""
     t = line.split()
@@ -463,12 +614,34 @@ def classify(line):
     if op == "pb2" and L(t[1]) > 64: return "pbkdf2-long-password"
     if op == "gcmr": return "gcm-context-reuse:first-tag-%s" % ("16" if t[4] == "16" else "short")
     if op == "gcmz": return "gcm-length-counter:2^31-bits"
-    if op in ("gcm", "chp") and t[1] != "e": return op + ":decrypt"
+    if op in ("gcm", "chp", "chpd") and t[1] != "e": return op + ":decrypt"
+    if op == "des3":
+        k = un(t[2]); kind = "one-key" if k[:8] == k[8:16] == k[16:] else "two-key(K1=K3)" if k[:8] == k[16:] else "three-key"
+        return "des3:%s:%s" % ("encrypt" if t[1] == "e" else "decrypt", kind)
+    if op in ("pb1", "sa2", "s5s", "m5s1"): return op
     return op + ":" + (t[1] if op not in ("pb2",) else "sha1")
 
 GROUPS = [("digests (Init/Update*/Final)", ("dg",)), ("HMAC streaming / one-shot / generic", ("hms", "hm1", "hmg")),
           ("HKDF extract / expand", ("hkx", "hke")), ("PBKDF2", ("pb2",)), ("AES-CBC", ("cbc",)), ("AES-GCM", ("gcm", "gcmr")),
-          ("ChaCha20-Poly1305", ("chp",))]
+          ("ChaCha20-Poly1305", ("chp", "chpd")), ("3DES-EDE-CBC", ("des3",)),
+          ("legacy / wrapper entry points (MD5||SHA1, AES block, PBKDF1, psSha256Standalone, psSha512Single, psHash*, psHmacSingle)",
+           ("m5s1", "aesb", "pb1", "sa2", "s5s", "hsg", "hm0"))]
+
+# what this configuration builds (crypto/cryptoConfig.h, cryptolib.h; checked against the exported symbols of libcrypt_s.a) and what C12 covers
+INVENTORY = {
+    "built_and_covered": {
+        "SHA-256 / SHA-1 / SHA-384 / SHA-512 / MD5 (Init/Update/Final)": "theorem (all chunkings) + KAT + differential",
+        "psSha256Standalone, psSha512Single, psHashInit/Update/Final": "KAT (shared spec) + differential vs hashlib",
+        "MD5||SHA1 (psMd5Sha1*)": "theorem c12_md5sha1_chunks + differential",
+        "HMAC-MD5/SHA1/SHA256/SHA384 streaming, one-shot, psHmacInit/psHmacSingle": "theorems + KAT + differential",
+        "HKDF extract/expand": "theorems + KAT + differential", "PBKDF2-HMAC-SHA1 (psPkcs5Pbkdf2)": "theorem + KAT + differential",
+        "PBKDF1/EVP_BytesToKey-MD5 (psPkcs5Pbkdf1)": "theorem c12_pbkdf1_eq + differential",
+        "AES-128/192/256 block (psAesEncryptBlock/psAesDecryptBlock)": "FIPS 197 KAT both directions + differential vs openssl",
+        "AES-CBC": "theorems (chunks, in place, inverse) + KAT + differential", "AES-GCM": "theorems (chunks, tag, counters) + KAT + differential; model = SP 800-38D by run only",
+        "3DES-EDE-CBC (psDes3*)": "theorems (key order, CBC calls, spec inverse; model = TDEA given single-DES = FIPS 46-3) + 156-row KAT both directions + differential vs Python DES and openssl",
+        "ChaCha20-Poly1305 (combined and detached API)": "RFC 8439 KAT + differential (no code-shaped model)"},
+    "not_built_in_this_configuration": ["DES single-key API", "RC2", "ARC4", "SEED", "IDEA", "MD2", "MD4", "SHA-224", "AES-CTR/CMAC/key-wrap"],
+    "built_but_outside_C12": ["psHkdfExpandLabel / TLS PRF (C10)", "RSA/ECC/DH/Ed25519 (C11, C13)"]}
 
 def run(ck):
     ck.trusted += ["Coq 8.16.1 kernel (coqc; vm_compute only in the KAT Examples of Crypto/CryptoKAT.v)",
@@ -481,7 +654,9 @@ def run(ck):
                        "buffer alignment and in-place operation are invisible to the model: covered by the differential run only",
                        "c12_hmac_eq / c12_pbkdf2_eq are about the FIXED psHmac*Init (pending-fixes/C12-hmac-long-key.patch)",
                        "GCM: 96-bit IVs only (the only form psAesReadyGCM accepts); fewer than 2^32 blocks per IV",
-                       "'AEAD decrypt fails on every single-bit change' is established by exhaustive single-bit sweeps on small sizes, not by a theorem"]
+                       "'AEAD decrypt fails on every single-bit change' is established by exhaustive single-bit sweeps on small sizes, not by a theorem",
+                       "3DES: c12_des3_eq_spec_partial / c12_des3_roundtrip_partial assume single_des_is_fips46 (des3.c's deskey+cookey+desfunc, modelled from the source's own tables, compute FIPS 46-3 DES): tied by 156 known answers in both directions (CryptoKAT.v) and by this run, not by a symbolic proof of the SP-box network; key order, EDE direction, CBC chaining / IV carry / in-place and the inverse property of the FIPS 46-3 / SP 800-67 specification are proved without it",
+                       "byte lists hold values below 256 (hypothesis `good` of the DES inverse theorems)"]
     ck.build_repo()
     ck.regen([("consts.sh",)])
     ck.coq_properties()
@@ -499,7 +674,7 @@ def run(ck):
         rc, out, _ = ck.run_lines(h, ["gcm e %s %s %s %s 16 - 0 0" % (hx(key), hx(iv), hx(aad), hx(pt))])   # no openssl: genuine ct/tag from the library itself
         t = out[0].split() if out else []
         return (un(t[0]), un(t[1])) if len(t) == 2 else None
-    gens += [gen_gcm(ck, r, gcm_enc), gen_gcm_reuse(ck, r), gen_chp(ck, r), gen_long_stream(ck, r)]
+    gens += [gen_gcm(ck, r, gcm_enc), gen_gcm_reuse(ck, r), gen_chp(ck, r), gen_long_stream(ck, r), gen_des3(ck, r), gen_legacy(ck, r)]
     seen = set(cases)
     for g in gens:
         for c in g:
@@ -554,6 +729,19 @@ def run(ck):
                 ck.spec_violation("gcm-length-counter:2^31-bits:wrong-output",
                                   "AES-GCM tag over %s of ciphertext: the library returns %s where SP 800-38D gives %s" % (what, got[0], want),
                                   {"harness": "h_crypto", "case": line, "observed": got[0], "expected_by_spec": want})
+    # 3DES second opinion: the openssl CLI on a sample (the pure-Python reference is the oracle of every case)
+    n2 = 0
+    for i, c in enumerate(cases):
+        t = c.split()
+        if t[0] != "des3" or n2 >= ck.budget(40, 400) or i >= len(impl): continue
+        ref = o_des3_openssl(un(t[2]), un(t[3]), un(t[4]), t[1] == "d")
+        if ref is None: continue
+        n2 += 1
+        if hx(ref) != impl[i].strip():
+            ck.spec_violation(classify(c) + ":wrong-output-vs-openssl", "3DES-CBC: the library returns %s where openssl gives %s" % (impl[i][:60], hx(ref)[:60]),
+                              {"harness": "h_crypto", "case": c, "observed": impl[i], "expected_by_spec": hx(ref)})
+    ck.cov["des3_openssl_second_opinion_cases"] = n2
+    ck.cov["primitive_inventory"] = INVENTORY
     ck.cov["spec_oracle_cases"] = nspec
     ck.cov["spec_oracle_skipped_no_independent_oracle"] = nskip
     ck.cov["openssl_cli"] = bool(OPENSSL)
